@@ -22,7 +22,7 @@ ASSUMPTIONS = [
     "ete3 tree container; CPython",
     "cost vectors restricted to spe <= dup + 2*floss (F-COHERENCE, DESIGN 9.1)",
 ]
-BUDGET = {"quick": 240, "thorough": 3000}
+BUDGET = {"quick": 600, "thorough": 3000}
 ALGOS = {"thl": reconcile_thl, "exh": reconcile_exhaustive}
 
 
